@@ -131,6 +131,7 @@ type Ctx struct {
 	// SmallBases marks variables known to be <= 2^62: base + small constant never wraps.
 	SmallBases     map[int]bool
 	AbstractMulDiv bool
+	AbstractGuards bool // add the zero/one facts of the real operations to the UFs
 	AbstractMinW   int
 }
 
@@ -679,6 +680,9 @@ func (c *Ctx) Bin(op Op, a, b *Term) *Term {
 		if !(a.IsConst() || b.IsConst()) {
 			name := fmt.Sprintf("uf_%s_%d", opNames[op], w)
 			u := c.UF(name, BV(w), a, b)
+			if !c.AbstractGuards {
+				return u
+			}
 			// Facts every model must share with the real operation (they keep
 			// the abstraction an over-approximation, so unsat stays sound):
 			zero, one := c.BVConst(0, w), c.BVConst(1, w)
